@@ -82,7 +82,12 @@ func main() {
 	maxThreads := flag.Int("threads", 4, "max goroutines")
 	maxOps := flag.Int("ops", 5, "max ops per goroutine")
 	quiet := flag.Bool("quiet", false, "no output (race detector runs)")
+	shared := flag.Int("sharedread", 0, "instead of histories: this many ReadAt calls per goroutine through ONE descriptor on a file that never changes")
 	flag.Parse()
+	if *shared > 0 {
+		sharedRead(*seed, *impl, *maxThreads, *shared)
+		return
+	}
 	w := bufio.NewWriterSize(os.Stdout, 1<<20)
 	defer w.Flush()
 	master := rng.New(*seed)
@@ -170,6 +175,7 @@ func main() {
 		for t := 0; t < nthreads; t++ {
 			tr := r.Fork()
 			nops := 1 + tr.Intn(*maxOps)
+			madeDir := false
 			for i := 0; i < nops; i++ {
 				var p planned
 				d := tr.Intn(len(dirNames))
@@ -178,7 +184,7 @@ func main() {
 					p = planned{kind: "C", d: d, n: 1 + tr.Intn(2)}
 				case k < 5 && t == 0 && appendNum >= 0: // append through the owner's descriptor
 					p = planned{kind: "A", fd: appendNum, real: appendFd, data: []byte(fmt.Sprintf("<%d.%d>", t, i))}
-				case k < 7 && t == nthreads-1 && oldNum >= 0 && tr.Bool(): // read the first version of s1 through the old descriptor
+				case k < 7 && oldNum >= 0 && (t == nthreads-1 && tr.Bool() || tr.Intn(4) == 0): // read the first version of s1 through the old descriptor (shared by all clients: the file it reads never changes)
 					p = planned{kind: "R", fd: oldNum, real: oldFd, off: uint64(tr.Intn(8)), ln: uint64(1 + tr.Intn(40))}
 				case k < 7: // read through own descriptor
 					p = planned{kind: "R", fd: readNums[t], real: readFds[t], off: uint64(tr.Intn(8)), ln: uint64(1 + tr.Intn(40))}
@@ -190,6 +196,11 @@ func main() {
 					p = planned{kind: "ORX", off: uint64(tr.Intn(5)), ln: uint64(1 + tr.Intn(20))}
 				case k < 11 && *impl == "mem": // private file: create, open, delete its only name, read through the descriptor, close
 					p = planned{kind: "KODRX", d: d, n: 3 + t%6, off: uint64(tr.Intn(3)), ln: uint64(1 + tr.Intn(20)), data: []byte(fmt.Sprintf("gone%d.%d", t, i))}
+				case k == 11 && tr.Bool() && !madeDir:
+					// a directory of the client's own, made while the others work (nobody else names it:
+					// valid in every order)
+					madeDir = true
+					p = planned{kind: "M", d: len(dirNames) + t}
 				default:
 					p = planned{kind: "S", d: d}
 				}
@@ -285,6 +296,8 @@ func main() {
 							do(fmt.Sprintf("R %d %d %d", num, p.off, p.ln), func() string { return "D " + readOwned(fs.ReadAt(f, p.off, p.ln)) })
 							do(fmt.Sprintf("X %d", num), func() string { fs.Close(f); return "U" })
 						}
+					case "M":
+						do(fmt.Sprintf("M %d", p.d), func() string { fs.Mkdir(fmt.Sprintf("own%d", p.d)); return "U" })
 					case "S":
 						do(fmt.Sprintf("S %d", p.d), func() string {
 							l := fs.List(dirNames[p.d])
@@ -357,5 +370,73 @@ func main() {
 			}
 			os.RemoveAll(root)
 		}
+	}
+}
+
+// sharedRead: several goroutines read through one descriptor on a file that
+// never changes.  Every linearization gives every ReadAt the same answer (the
+// bytes of [off, off+len) that exist), so each result is compared with it
+// directly.  Output: one line "SHAREDREAD reads=<n> wrong=<k>" and, for the
+// first wrong results, "WRONG thread=<t> off=<o> len=<l> got=<hex> want=<hex>".
+func sharedRead(seed uint64, impl string, threads, per int) {
+	var fs filesys.Filesys
+	root := ""
+	if impl == "mem" {
+		fs = filesys.NewMemFs()
+	} else {
+		var err error
+		root, err = os.MkdirTemp("", "verif-fsshared-")
+		if err != nil {
+			panic(err)
+		}
+		defer os.RemoveAll(root)
+		fs = filesys.NewDirFs(root)
+	}
+	fs.Mkdir("d0")
+	const size = 6000
+	content := make([]byte, size)
+	for i := range content {
+		content[i] = byte((i*7 + i/251) % 251)
+	}
+	fs.AtomicCreate("d0", "fixed", content)
+	fd := fs.Open("d0", "fixed")
+	var wg sync.WaitGroup
+	var wrong atomic.Int64
+	var mu sync.Mutex
+	var first []string
+	master := rng.New(seed)
+	for t := 0; t < threads; t++ {
+		r := master.Fork()
+		wg.Add(1)
+		go func(t int) {
+			defer wg.Done()
+			for i := 0; i < per; i++ {
+				off := uint64(r.Intn(size + 40))
+				ln := uint64(r.Intn(300))
+				got := fs.ReadAt(fd, off, ln)
+				var want []byte
+				if off < size {
+					end := off + ln
+					if end > size {
+						end = size
+					}
+					want = content[off:end]
+				}
+				if string(got) != string(want) {
+					wrong.Add(1)
+					mu.Lock()
+					if len(first) < 3 {
+						first = append(first, fmt.Sprintf("WRONG thread=%d off=%d len=%d got=%x want=%x", t, off, ln, got, want))
+					}
+					mu.Unlock()
+				}
+			}
+		}(t)
+	}
+	wg.Wait()
+	fs.Close(fd)
+	fmt.Printf("SHAREDREAD reads=%d wrong=%d\n", threads*per, wrong.Load())
+	for _, l := range first {
+		fmt.Println(l)
 	}
 }
